@@ -69,11 +69,18 @@ CFG = {
         "len+1, 2^20}; for these the scan results are compared through a summary only - (number of items, first 3 items, last 3 "
         "items, checksum acc := (acc*1000003 + 7*key + payload) mod (2^31-1) over the whole result, defined in C03_Check.v and in "
         "the harness) - because printing 30 full lists of >1000 items per case is too slow to elaborate; all other cases compare "
-        "full lists) generated from its own seed; non-trivial = at least 4 steps; "
+        "full lists) generated from its own seed; a call that never returns is an outcome too: every wrapper operation of a sequential "
+        "history runs in its own goroutine under a watchdog, and if after 3 s it is found WAITING inside sync.RWMutex Lock/RLock "
+        "called from that wrapper method (one stop-the-world snapshot of all goroutine stacks, nobody else uses that wrapper) the "
+        "step's outcome is OStuck, which equals no outcome of the model (c03_stuck_is_no_outcome), the history ends there and the "
+        "case is emitted; an operation that is still computing keeps being waited for; in the concurrent classes the same snapshot "
+        "is taken for the whole case - every caller still alive waiting on the wrapper's lock at one instant (impossible with a "
+        "correctly used lock: a holder is not waiting, a freed lock makes its waiter runnable) is reported as a failing case with the "
+        "operation each caller is in; after 3 such histories the remaining wrapper classes of the run are skipped; non-trivial = at least 4 steps; "
         "distinct = distinct Coq term (ops + observed results + observed shapes)"
     ),
     "trusted": [
-        "Go harness cmd/c03 (generators, recover wrappers, child-process supervisor), items type kv{k,p} with Less on k",
+        "Go harness cmd/c03 (generators, recover wrappers, the per-operation watchdog reading goroutine stacks (watch.go), child-process supervisor), items type kv{k,p} with Less on k",
         "verif hooks (*btree.BTree).VerifShape (items / children / ownership flag per node, degree, length field) and (*tree.BTree).VerifInner",
         "lock-discipline lint (syntactic) for the five wrapper methods that lock in their first statement",
     ],
